@@ -4409,6 +4409,8 @@ func classSweep(c *an.Ctx, prop string) {
 	add("nil-receivers", sharedNilReceiverPath(c, rule, pk...))
 	add("sends-under-lock", sharedSendsUnderLock(c, rule, pk...))
 	add("error-appends", sharedAppendResultUsed(c, rule, pk...))
+	add("aliasing-strings", sharedNoAliasingStrings(c, rule, pk...))
+	add("same-type-copies", sharedSameTypeCopyComplete(c, rule, pk...))
 	n := 0
 	for _, p := range pk {
 		n += sharedNoShallowCopy(c, rule, p, "github.com/miekg/dns.Msg")
@@ -6220,7 +6222,6 @@ func sharedPrefixOfSameAddr(c *an.Ctx, rule string, prefixes ...string) (examine
 	return examined
 }
 
-
 // sharedLockReleased: a mutex that a function locks is unlocked (or its unlock
 // is deferred) on every path from the Lock to a return of that function.  An
 // early return placed between the Lock and the `defer Unlock` leaves the mutex
@@ -6858,16 +6859,251 @@ func sharedAppendResultUsed(c *an.Ctx, rule string, prefixes ...string) (examine
 			examined++
 			inFn++
 			c.Analysed(an.FnKey(fn))
+			// a use is anything but feeding the value back into an append of the same accumulation (directly or
+			// through the loop's phi): an error slice that only ever grows and is never read is dropped as a whole
 			used := false
-			for _, r := range *call.Referrers() {
-				if _, dbg := r.(*ssa.DebugRef); !dbg {
-					used = true
+			seen := map[ssa.Value]bool{}
+			var follow func(v ssa.Value, d int)
+			follow = func(v ssa.Value, d int) {
+				if seen[v] || d > 8 || used {
+					return
+				}
+				seen[v] = true
+				for _, r := range *v.Referrers() {
+					switch x := r.(type) {
+					case *ssa.DebugRef:
+					case *ssa.Phi:
+						follow(x, d+1)
+					case *ssa.Call:
+						if bb, ok := x.Call.Value.(*ssa.Builtin); ok && bb.Name() == "append" && len(x.Call.Args) > 0 && x.Call.Args[0] == v {
+							follow(x, d+1)
+						} else {
+							used = true
+						}
+					default:
+						used = true
+					}
 				}
 			}
+			follow(call, 0)
 			c.Check(used, rule, fmt.Sprintf("%s: the result of error append %d is used", an.FnKey(fn), inFn), call.Pos(),
 				"the grown slice is read afterwards",
 				"the result of the append at "+c.Pos(call.Pos())+" is never read: the error is added to a slice that is not the one returned (or joined), so it is dropped")
 		})
+	}
+	return examined
+}
+
+// sharedNoAliasingStrings: a Go string is immutable for everybody who holds
+// it; unsafe.String over the bytes of a buffer that is written again later (a
+// pooled buffer, a reused scratch slice) makes a string whose content changes
+// under its holders.  An identifier that was validated and then used as a map
+// key or sent to the backend becomes another identifier.  No production code
+// makes a string with unsafe.String or a slice with unsafe.Slice.  (The one
+// use of package unsafe in the repository converts between slice types of
+// equal layout through unsafe.Pointer and is not one of these.)  Returns the
+// number of functions scanned.
+func sharedNoAliasingStrings(c *an.Ctx, rule string, prefixes ...string) (scanned int) {
+	for _, fn := range c.AllFns {
+		if fn.Blocks == nil || c.IsTestFile(fn.Pos()) || !c.Prog.InRepo(fn) || !hasAnyPrefix(an.FnKey(fn), prefixes) {
+			continue
+		}
+		scanned++
+		n := 0
+		an.Instrs(fn, func(in ssa.Instruction) {
+			call, ok := in.(*ssa.Call)
+			if !ok {
+				return
+			}
+			b, ok := call.Call.Value.(*ssa.Builtin)
+			// "String" and "Slice" are builtins of package unsafe only (the universe has none of these names)
+			if !ok || b.Name() != "String" && b.Name() != "Slice" {
+				return
+			}
+			n++
+			c.Analysed(an.FnKey(fn))
+			c.Bad(rule, fmt.Sprintf("%s: value %d made with unsafe.%s owns its bytes", an.FnKey(fn), n, b.Name()), call.Pos(),
+				"unsafe.%s at %s makes a value that shares its bytes with a buffer: when the buffer is reused (a pooled or scratch buffer), the value changes under whoever holds it", b.Name(), c.Pos(call.Pos()))
+		})
+	}
+	return scanned
+}
+
+// sharedSameTypeCopyComplete: a function that receives a *T and builds a new T
+// field by field from it (a narrowed or adjusted copy of a configuration)
+// carries every field over.  When at least half of T's fields are filled, by
+// name, from the parameter's fields, a field that the literal leaves at its
+// zero value is a dropped setting (a timeout of zero is "no timeout").  Fields
+// that the literal sets to something else count as set.  Returns the number of
+// such copies examined.
+func sharedSameTypeCopyComplete(c *an.Ctx, rule string, prefixes ...string) (examined int) {
+	for _, fn := range c.AllFns {
+		k := an.FnKey(fn)
+		if fn.Blocks == nil || c.IsTestFile(fn.Pos()) || !c.Prog.InRepo(fn) || !hasAnyPrefix(k, prefixes) {
+			continue
+		}
+		inFn := 0
+		an.Instrs(fn, func(in ssa.Instruction) {
+			al, ok := in.(*ssa.Alloc)
+			if !ok {
+				return
+			}
+			st, ok := al.Type().Underlying().(*types.Pointer).Elem().Underlying().(*types.Struct)
+			if !ok || st.NumFields() < 4 {
+				return
+			}
+			// a parameter of the same pointer type
+			var src *ssa.Parameter
+			for _, pa := range fn.Params {
+				if types.Identical(pa.Type(), al.Type()) {
+					src = pa
+				}
+			}
+			if src == nil {
+				return
+			}
+			set := map[int]bool{}
+			byName := 0
+			for _, r := range *al.Referrers() {
+				fa, ok := r.(*ssa.FieldAddr)
+				if !ok {
+					continue
+				}
+				for _, r2 := range *fa.Referrers() {
+					sto, ok := r2.(*ssa.Store)
+					if !ok || sto.Addr != ssa.Value(fa) {
+						continue
+					}
+					set[fa.Field] = true
+					if ld, ok := sto.Val.(*ssa.UnOp); ok && ld.Op == token.MUL {
+						if sfa, ok := ld.X.(*ssa.FieldAddr); ok && sfa.X == ssa.Value(src) && sfa.Field == fa.Field {
+							byName++
+						}
+					}
+				}
+			}
+			if byName*2 < st.NumFields() {
+				return
+			}
+			examined++
+			inFn++
+			c.Analysed(k)
+			var missing []string
+			for i := 0; i < st.NumFields(); i++ {
+				if !set[i] {
+					missing = append(missing, st.Field(i).Name())
+				}
+			}
+			c.Check(len(missing) == 0, rule, fmt.Sprintf("%s: copy %d of its %s parameter carries every field over", k, inFn, an.Short(al.Type().String())), al.Pos(),
+				fmt.Sprintf("%d fields filled from the parameter by name, none left out", byName),
+				fmt.Sprintf("the copy built at %s fills %d fields from the parameter and leaves %s at the zero value: the setting is dropped on the way (a zero timeout means no timeout, a zero size no limit)", c.Pos(al.Pos()), byName, strings.Join(missing, ", ")))
+		})
+	}
+	return examined
+}
+
+// sharedEnumSwitchesAgree: a string setting with a fixed set of values (package
+// constants with a common name prefix) is checked once, by a validate method,
+// and switched on again wherever it is used.  A use whose default branch treats
+// an unknown value as a programmer error (panic, errors.ErrBadEnumValue) must
+// know every value that validation accepts: an accepted configuration would
+// otherwise crash the start-up.  validateSuffix names the validating function;
+// every other function of the package that compares one value against two or
+// more of the constants and has such a default is examined.  Returns the number
+// of switches examined.
+func sharedEnumSwitchesAgree(c *an.Ctx, rule, pkgPath, constPrefix, validateSuffix string) (examined int) {
+	pkg := c.Prog.SSA.ImportedPackage(pkgPath)
+	if pkg == nil {
+		c.Und(rule, "enumeration "+constPrefix+"*", token.NoPos, "package %s not found", pkgPath)
+		return 0
+	}
+	values := map[string]string{} // constant value -> name
+	for n, mem := range pkg.Members {
+		if k, ok := mem.(*ssa.NamedConst); ok && strings.HasPrefix(n, constPrefix) && k.Value.Value.Kind() == constant.String {
+			values[constant.StringVal(k.Value.Value)] = n
+		}
+	}
+	// compared returns, per compared operand, the set of enumeration values it is compared with in fn
+	compared := func(fn *ssa.Function) map[string]map[string]bool {
+		res := map[string]map[string]bool{}
+		an.Instrs(fn, func(in ssa.Instruction) {
+			b, ok := in.(*ssa.BinOp)
+			if !ok || b.Op != token.EQL {
+				return
+			}
+			k, other := b.Y, b.X
+			if _, isK := k.(*ssa.Const); !isK {
+				k, other = b.X, b.Y
+			}
+			kc, isK := k.(*ssa.Const)
+			if !isK || kc.Value == nil || kc.Value.Kind() != constant.String {
+				return
+			}
+			v := constant.StringVal(kc.Value)
+			if _, ok := values[v]; !ok {
+				return
+			}
+			op, _ := an.AccessPath(other)
+			if op == "" {
+				op = other.Name()
+			}
+			if res[op] == nil {
+				res[op] = map[string]bool{}
+			}
+			res[op][v] = true
+		})
+		return res
+	}
+	strict := func(fn *ssa.Function) bool {
+		s := false
+		an.Instrs(fn, func(in ssa.Instruction) {
+			switch x := in.(type) {
+			case *ssa.Panic:
+				s = true
+			case *ssa.UnOp:
+				if g, ok := x.X.(*ssa.Global); ok && g.Name() == "ErrBadEnumValue" {
+					s = true
+				}
+			}
+		})
+		return s
+	}
+	accepted := map[string]bool{}
+	for _, fn := range c.AllFns {
+		if fn.Pkg == pkg && strings.HasSuffix(an.FnKey(fn), validateSuffix) && !c.IsTestFile(fn.Pos()) {
+			for _, set := range compared(fn) {
+				for v := range set {
+					accepted[v] = true
+				}
+			}
+		}
+	}
+	if len(accepted) < 2 {
+		c.Und(rule, "enumeration "+constPrefix+"*", token.NoPos, "the validating switch (%s) over the %d constants was not found", validateSuffix, len(values))
+		return 0
+	}
+	for _, fn := range c.AllFns {
+		k := an.FnKey(fn)
+		if fn.Pkg != pkg || fn.Blocks == nil || c.IsTestFile(fn.Pos()) || strings.HasSuffix(k, validateSuffix) || !strict(fn) {
+			continue
+		}
+		for op, set := range compared(fn) {
+			if len(set) < 2 {
+				continue
+			}
+			examined++
+			c.Analysed(k)
+			var missing []string
+			for v := range accepted {
+				if !set[v] {
+					missing = append(missing, values[v])
+				}
+			}
+			sort.Strings(missing)
+			c.Check(len(missing) == 0, rule, fmt.Sprintf("%s: the switch over %s knows every accepted %s value", k, op, constPrefix), fn.Pos(),
+				fmt.Sprintf("%d values, all that validation accepts", len(set)),
+				fmt.Sprintf("the switch over %s in %s treats an unknown value as a programmer error but has no case for %s, which validation accepts: a configuration that passes validation crashes the start-up", op, k, strings.Join(missing, ", ")))
+		}
 	}
 	return examined
 }
